@@ -456,7 +456,7 @@ func TestC06(t *testing.T) {
 				plen = 60
 			}
 			pkt := c07TunPacket(innerSrc, innerDst, proto, rport, port)[:plen]
-			sealWith := c.Weighted("in.seal", 10, 2)
+			sealWith := c.Weighted("in.seal", 10, 2, 2)
 			if repeat != "" {
 				sealWith = 0
 			}
@@ -472,6 +472,9 @@ func TestC06(t *testing.T) {
 				ws := s.party.SessionWith(other)
 				_ = vnet.KeyExchange(ws, other.SessionWith(s.party))
 				_ = f.Seal(ws)
+			case sealWith == 2:
+				// not sealed at all: the packet travels in clear in a frame of an
+				// encrypted class (what a sender without keys could put on the wire)
 			case sealWith == 1 || !s.keyed:
 				_ = f.Seal(s.wrongS)
 			default:
